@@ -27,6 +27,7 @@ type Entry struct {
 	Pos   token.Position
 	Body  *Stmt
 	Store bool // exported method of one of the stores (single-section obligation)
+	fi    *FuncInfo
 }
 
 type taintInfo struct {
@@ -232,19 +233,6 @@ func (t *Trans) setup() {
 				case *ast.CallExpr:
 					if id := funIdent(x.Fun); id != nil {
 						callFun[id] = true
-					}
-				case *ast.AssignStmt:
-					// record fields assigned through a selector (path stability)
-					for _, l := range x.Lhs {
-						if se, ok := stripParens(l).(*ast.SelectorExpr); ok {
-							if sel := p.Info.Selections[se]; sel != nil {
-								if v, ok := sel.Obj().(*types.Var); ok {
-									if _, seen := t.assigned[v]; !seen {
-										t.assigned[v] = t.fset.Position(se.Pos())
-									}
-								}
-							}
-						}
 					}
 				}
 				return true
